@@ -166,6 +166,18 @@ Qed.
 Lemma symx_ml_append w ir v : symx (fst (ml_append w ir v)) = symx w.
 Proof. apply symx_ml_insert. Qed.
 
+Lemma symx_ml_assign w ir new : symx (fst (ml_assign w ir new)) = symx w.
+Proof.
+  unfold ml_assign. cbv zeta.
+  match goal with |- context [fold_ok ?F ?L w] =>
+    pose proof (symx_fold_ok F L (fun wx v => symx_ml_remove_hook wx ir v) w) as H1;
+    destruct (fold_ok F L w) as [w1 ok1] end.
+  match goal with |- context [fold_ok ?F ?L w1] =>
+    pose proof (symx_fold_ok F L (fun wx v => symx_ml_add_hook wx ir v) w1) as H2;
+    destruct (fold_ok F L w1) as [w2 ok2] end.
+  cbn [fst] in *. rewrite <- H1, <- H2. reflexivity.
+Qed.
+
 Lemma symx_flagged' r w w' : symx (fst r) = symx w -> flagged r = Ok w' -> symx w' = symx w.
 Proof. intros H1 H2. rewrite (symx_flagged _ _ H2). exact H1. Qed.
 
@@ -190,8 +202,19 @@ Proof.
   - apply symx_flagged', symx_fold_ok. intros; apply symx_set_add.
   - apply symx_flagged', symx_fold_ok. intros; apply symx_set_discard.
   - apply symx_flagged', symx_fold_ok. intros; apply symx_set_discard.
-  - apply symx_flagged', symx_fold_ok. intros wx c.
-    destruct (mem c (field wx p fk)); [apply symx_set_discard | apply symx_set_add].
+  - pose proof (symx_fold_ok (fun w c => set_discard w p c)
+                  (filter (fun c => mem c (field w p fk)) (dedup arg1))
+                  (fun wx c => symx_set_discard wx p c) w) as H1.
+    destruct (fold_ok (fun w c => set_discard w p c) (filter (fun c => mem c (field w p fk)) (dedup arg1)) w)
+      as [w1 ok1].
+    cbn [fst] in H1.
+    pose proof (symx_fold_ok (fun w c => set_add w p c)
+                  (filter (fun c => negb (mem c (field w p fk))) (dedup arg1))
+                  (fun wx c => symx_set_add wx p c) w1) as H2.
+    destruct (fold_ok (fun w c => set_add w p c) (filter (fun c => negb (mem c (field w p fk))) (dedup arg1)) w1)
+      as [w2 ok2].
+    cbn [fst] in H2.
+    apply symx_flagged'. cbn [fst]. rewrite H2. exact H1.
 Qed.
 
 Lemma symx_do_setparent w c p w' : do_setparent w c p = Ok w' -> symx w' = symx w.
@@ -271,22 +294,8 @@ Proof.
       destruct (fold_ok F L w) as [w1 ok] end.
     apply symx_flagged'. exact H.
   - destruct (norm_index i (length (kids w ir))) as [k|]; try discriminate.
-    destruct (nth_error (kids w ir) k) as [old|]; try discriminate.
-    destruct (mem v (kids w ir) && negb (v =? old)); try discriminate.
-    pose proof (symx_ml_remove_hook w ir old) as H1.
-    destruct (ml_remove_hook w ir old) as [w1 ok1].
-    pose proof (symx_ml_add_hook w1 ir v) as H2.
-    destruct (ml_add_hook w1 ir v) as [w2 ok2].
-    apply symx_flagged'. cbn [fst] in *. rewrite <- H1, <- H2. reflexivity.
-  - cbv zeta.
-    match goal with |- context [if ?c then Err EImpossible else _] => destruct c end; try discriminate.
-    match goal with |- context [fold_ok ?F ?L w] =>
-      pose proof (symx_fold_ok F L (fun wx v => symx_ml_remove_hook wx ir v) w) as H1;
-      destruct (fold_ok F L w) as [w1 ok1] end.
-    match goal with |- context [fold_ok ?F ?L w1] =>
-      pose proof (symx_fold_ok F L (fun wx v => symx_ml_add_hook wx ir v) w1) as H2;
-      destruct (fold_ok F L w1) as [w2 ok2] end.
-    apply symx_flagged'. cbn [fst] in *. rewrite <- H1, <- H2. reflexivity.
+    apply symx_flagged', symx_ml_assign.
+  - cbv zeta. apply symx_flagged', symx_ml_assign.
   - match goal with |- context [fold_ok ?F ?L w] =>
       pose proof (symx_fold_ok F L (fun wx v => symx_ml_remove_hook wx ir v) w) as H;
       destruct (fold_ok F L w) as [w1 ok] end.
